@@ -23,6 +23,11 @@ class ViaTuple(Root):
 
 
 @dataclass
+class ViaTuple2(Root):
+    t: tuple[Leaf, Root]
+
+
+@dataclass
 class ViaUnion(Root):
     u: Union[Leaf, "ViaUnion"]
 
@@ -55,6 +60,10 @@ def grammar_tuple(**kw):
     return extract_grammar([Leaf, ViaTuple], Root, **kw)
 
 
+def grammar_tuple2(**kw):
+    return extract_grammar([Leaf, ViaTuple2], Root, **kw)
+
+
 def grammar_union(**kw):
     return extract_grammar([Leaf, ViaUnion], Root, **kw)
 
@@ -75,6 +84,7 @@ class _V:
 
 VARIANTS = {
     "grammar_tuple": _V([Leaf, ViaTuple]),
+    "grammar_tuple2": _V([Leaf, ViaTuple2]),
     "grammar_union": _V([Leaf, ViaUnion]),
     "grammar_list": _V([Leaf, ViaList]),
     "grammar_mutual": _V([Leaf, Ping, Pong, Stop]),
